@@ -224,6 +224,18 @@ def run_shard(desc, tier):
             check_cookie(r, "q", '"' + s_ + '"', full=False)
             if idx == 0:
                 check_cookie(r, '"' + s_ + '"', "v", full=False)
+        # long runs: every alphabet character repeated 1..40 times (an escaping step that handles only the first few occurrences),
+        # followed by an attribute the attacker wants to plant; as value and as name
+        ch = COOKIE_ALPHA[idx] if idx < len(COOKIE_ALPHA) else "; "
+        for k in list(range(1, 41)) + [100, 1000]:
+            for tail in ("; domain=evil.example", "\r\nset-cookie: evil=1", ""):
+                check_cookie(r, "sid", ch * k + tail, full=False)
+                check_cookie(r, "sid", "ab" + ch * k + tail, full=True)
+                check_cookie(r, "n" + ch * k + tail, "v", full=False)
+                check_cookie(r, "sid", ch * k + tail, full=False, late=True)
+        # an empty value (what delete_cookie() sends) with every hostile name
+        for name in names:
+            check_cookie(r, name, "", full=False, delete=True)
         r.sample({"cookie_name": names[-1], "cookie_value": strings[-1]})
     else:
         a0 = URL_ALPHA[desc[1]]
@@ -282,7 +294,7 @@ def header_strings(r, iface, tier):
     r.sample({"iface": iface, "header_string": "a\r\n b", "paths": list(paths)})
 
 
-def check_cookie(r, name, value, full, late=False):
+def check_cookie(r, name, value, full, late=False, delete=False):
     wide = any(ord(c) > 0xFF for c in name + value)
     for iface in ("wsgi", "asgi"):
         mod = __import__("baize.wsgi" if iface == "wsgi" else "baize.asgi", fromlist=["Response"])
@@ -301,6 +313,9 @@ def check_cookie(r, name, value, full, late=False):
                 resp.cookies[-1].name = name
                 resp.cookies[-1].value = value
                 expect = [" path=/", " samesite=lax"]
+            elif delete:
+                resp.delete_cookie(name)
+                expect = None
             else:
                 resp.set_cookie(name, value)
                 expect = [" path=/", " samesite=lax"]
@@ -327,6 +342,14 @@ def check_cookie(r, name, value, full, late=False):
             r.violation("cookie:non-ascii-line", w, f"{iface} cookie ({name!r}, {value!r}) -> {line!r}")
             continue
         parts = line.split(";")
+        if expect is None:
+            # delete_cookie: whatever attributes the library uses for an expiry, their names come from a fixed set
+            names_ = sorted(p_.strip().split("=")[0].lower() for p_ in parts[1:])
+            if not set(names_) <= {"expires", "max-age", "path", "samesite", "domain", "secure", "httponly"} or len(set(names_)) != len(names_):
+                r.violation("cookie:attribute-injected", w, f"{iface} delete_cookie({name!r}) -> {line!r}: attributes {parts[1:]}")
+            else:
+                r.add("outcomes", ("cookie-delete", len(parts)))
+            continue
         if parts[1:] != expect:
             r.violation("cookie:attribute-injected", w, f"{iface} cookie ({name!r}, {value!r}) -> {line!r}: attributes {parts[1:]} expected {expect}")
             continue
